@@ -79,7 +79,36 @@ def _c09_runs(tier, seed, replay):
 
 REPL_TRUSTED = LOG_TRUSTED + ["Ed25519 verification of ed25519-dalek is modelled by the RFC 8032 implementation in Lean (same accept/reject on every signature the runs produce)"]
 
+def _c12_runs(tier, seed, replay):
+    if tier == "quick":
+        return [["readonly", "--seed", S(seed, i), "--n", "24", "--maxops", "8", "--crash", "1"] for i in range(1, 5)]
+    return [["readonly", "--seed", S(seed, 10 + i), "--n", "120", "--maxops", "12", "--crash", "1"] for i in range(12)]
+
+def _c13_runs(tier, seed, replay):
+    if tier == "quick":
+        return [["events", "--seed", S(seed, i), "--n", "150", "--maxops", "25"] for i in range(1, 5)]
+    return [["events", "--seed", S(seed, 10 + i), "--n", "800", "--maxops", "30"] for i in range(12)]
+
 PROPS = {
+    "C12": dict(
+        theorems=["HC.C12.not_writable", "HC.C12.ro_idempotent", "HC.C12.ro_result", "HC.C12.ro_journal", "HC.C12.ro_both_slots",
+                  "HC.C12.ro_prefix_stores", "HC.C12.slot_full", "HC.C12.header_without_secret"],
+        bridge_modules=["HC.Bridge.Oplog"], bridging=OPLOG_BRIDGE,
+        runs=_c12_runs,
+        partial="proved on the model: the NotWritable gate, idempotence, and the exact storage operations of make_read_only (both header slots rewritten as full zero-padded slots from the secret-free header, entries truncated in between). That the resulting oplog FILE is exactly the two slots (File algebra) and the crash cases are covered by the run: raw bytes of all four stores are scanned for the seed, its halves and the expanded secret; every crash point inside the call is reopened.",
+        rule="histories with 0..10 prior operations (all four header-bit parities, 0-3 unflushed entries) followed by make_read_only, all crash points inside the call, secret scan of the raw stores before/after, append refused, second call false, reopen read-only with the stored public key, key pair + open rejected, further operations; replicas (read-only from the start)",
+        trusted=LOG_TRUSTED,
+    ),
+    "C13": dict(
+        theorems=["HC.C13.append_events", "HC.C13.append_empty", "HC.C13.append_refused", "HC.C13.get_events", "HC.C13.clear_events",
+                  "HC.C13.apply_events", "HC.C13.refused_events"],
+        bridge_modules=["HC.Bridge.Stores"], bridging=["HC.Bridge.Stores.event_queue"],
+        runs=_c13_runs,
+        partial="fan-out to several subscribers is a property of async-broadcast (modelled: every attached subscriber receives the operation's event list); the union-of-announced-ranges oracle is evaluated by the harness",
+        rule="writer + replica with 0-3 subscribers each attached at random points and drained after every call: appends, empty batches, clears, reads of held/missing/out-of-range indices, accepted proofs (block/upgrade/both), refused and failing proofs, appends on a read-only core; per-call events compared with the list-model oracle and with the Lean model; union of announced ranges = blocks that became available",
+        trusted=LOG_TRUSTED + ["async-broadcast (dependency) is modelled as per-subscriber queues below the capacity of 32"],
+        assumptions=["fewer than 32 undrained events"],
+    ),
     "C03": dict(
         theorems=["HC.C03.accept_commits", "HC.C03.accepted_events"],
         bridge_modules=["HC.Bridge.Oplog", "HC.Bridge.Stores"], bridging=OPLOG_BRIDGE + STORES_BRIDGE,
